@@ -244,6 +244,9 @@ class ModuleEnv:
             st.env = saved
 
     def method_call(self, base, name, node, eng, st):
+        if isinstance(base, VOpt) and not st.spec:      # a method call on an Optional: obligation that it is not None here, then its payload
+            eng.oblige(st, z3.Not(base.isnone), f'no-AttributeError-None@L{node.lineno}', 'safety', node)
+            base = base.val
         args = [eng.ev(a, st) for a in node.args]
         if isinstance(base, VList):
             if name == 'append' and len(args) == 1:
